@@ -73,3 +73,26 @@ func init() {
 		mutant{"removal-arm-forgotten", "pkg/core/core.go", "\tcase []interface{}:\n\t\tif invIdx, ok := s.invertedIndex[indexName]; ok {\n\t\t\tif keyMap, ok := invIdx[key]; ok {\n\t\t\t\tfor _, elem := range old {", "\tcase []string:\n\t\tif invIdx, ok := s.invertedIndex[indexName]; ok {\n\t\t\tif keyMap, ok := invIdx[key]; ok {\n\t\t\t\tfor _, elem := range old {", "SIB-1", "removeOldIndexEntries:has:[]interface{}"},
 	)
 }
+
+func init() {
+	addMutants("C10",
+		mutant{"reverse-soft-delete-stamps-first-entry", "pkg/core/graph.go", "if inList[i].SourceID == sourceID && inList[i].DeletedAt == 0 {\n\t\t\t\t\t\tinList[i].DeletedAt = timestamp", "if inList[i].SourceID == sourceID {\n\t\t\t\t\t\tinList[i].DeletedAt = timestamp", "SIB-views", "RemoveEdge:soft:forward=reverse"},
+		mutant{"hard-delete-keeps-history", "pkg/core/graph.go", "if edge.TargetID != targetID {\n\t\t\t\t\t\tnewOut = append(newOut, edge)", "if edge.TargetID != targetID || edge.DeletedAt != 0 {\n\t\t\t\t\t\tnewOut = append(newOut, edge)", "SIB-views", "RemoveEdge:hard"},
+		mutant{"replay-inverse-unlink-swapped", "pkg/engine/recovery.go", "e.DB.RemoveEdge(targetID, sourceID, invRelType, hardDelete, ts)", "e.DB.RemoveEdge(sourceID, targetID, invRelType, hardDelete, ts)", "CDC-9", "GUNLINK:roles"},
+		mutant{"second-clock-read-on-apply", "pkg/engine/graph.go", "e.DB.AddEdge(internalSource, internalTarget, relationType, weight, rawProps, now)\n", "e.DB.AddEdge(internalSource, internalTarget, relationType, weight, rawProps, time.Now().UnixNano())\n", "CDC-9", "GLINK"},
+		mutant{"boundary-inclusive-delete", "pkg/core/graph.go", "if deletedAt == 0 || deletedAt > queryTime {", "if deletedAt == 0 || deletedAt >= queryTime {", "SIB-views", "isActiveAtTime"},
+		mutant{"relink-not-mirrored", "pkg/core/graph.go", "if inList[i].SourceID == sourceID && inList[i].DeletedAt == 0 {\n\t\t\tfoundIn = true", "if inList[i].SourceID == sourceID {\n\t\t\tfoundIn = true", "SIB-views", "AddEdge:active-lookup"},
+	)
+	addMutants("C11",
+		mutant{"lifo-worklist", "pkg/engine/graph.go", "\t\tcurr := queue[0]\n\t\tqueue = queue[1:]\n", "\t\tcurr := queue[len(queue)-1]\n\t\tqueue = queue[:len(queue)-1]\n", "GRD-bfs", "resolveGraphFilter:fifo"},
+		mutant{"enqueue-before-visited-test", "pkg/engine/graph.go", "\t\t\t\t\tif !visited[target] {\n\t\t\t\t\t\tvisited[target] = true\n\t\t\t\t\t\tdata, _ := e.VGet(indexName, target)\n\t\t\t\t\t\tnodesMap[target] = SubgraphNode{ID: target, Metadata: data.Metadata}\n\t\t\t\t\t\tqueue = append(queue, queueItem{id: target, depth: current.depth + 1})\n\t\t\t\t\t}", "\t\t\t\t\tqueue = append(queue, queueItem{id: target, depth: current.depth + 1})\n\t\t\t\t\tif !visited[target] {\n\t\t\t\t\t\tvisited[target] = true\n\t\t\t\t\t\tdata, _ := e.VGet(indexName, target)\n\t\t\t\t\t\tnodesMap[target] = SubgraphNode{ID: target, Metadata: data.Metadata}\n\t\t\t\t\t}", "GRD-bfs", "VExtractSubgraph:enqueue"},
+		mutant{"depth-clamp-removed", "pkg/engine/graph.go", "\tif maxDepth > 5 {\n\t\tmaxDepth = 5\n\t}\n\n\tfor len(queue) > 0 {\n\t\tcurr := queue[0]", "\tfor len(queue) > 0 {\n\t\tcurr := queue[0]", "GRD-bfs", "resolveGraphFilter:depth-clamp"},
+		mutant{"recursion-without-increment", "pkg/engine/ops.go", "e.traversePath(indexName, nodeData.ID, remainingPath, hydrate, currentDepth+1)", "e.traversePath(indexName, nodeData.ID, remainingPath, hydrate, currentDepth)", "GRD-path", "traversePath:depth+1"},
+		mutant{"meeting-at-discovery", "pkg/engine/pathfinding.go", "\t\t\t\t\t\t\tif _, seen := fwdVisited[neighbor]; !seen {\n\t\t\t\t\t\t\t\tfwdVisited[neighbor] = curr", "\t\t\t\t\t\t\tif _, seen := fwdVisited[neighbor]; !seen {\n\t\t\t\t\t\t\t\tif _, ok := bwdVisited[neighbor]; ok {\n\t\t\t\t\t\t\t\t\tfwdVisited[neighbor] = curr\n\t\t\t\t\t\t\t\t\tmeetingNode = neighbor\n\t\t\t\t\t\t\t\t\tgoto Found\n\t\t\t\t\t\t\t\t}\n\t\t\t\t\t\t\t\tfwdVisited[neighbor] = curr", "GRD-path", "meeting-on-frontier-node"},
+	)
+	addMutants("C12",
+		mutant{"replay-repairs-incoming-only", "pkg/engine/recovery.go", "outgoing := e.DB.GetAllRelations(graphID, \"out\")\n\t\t\t\tfor relType, targets := range outgoing {", "outgoing := map[string][]string{}\n\t\t\t\tfor relType, targets := range outgoing {", "SIB-4", "VDEL-repair-directions"},
+		mutant{"cascade-skips-outgoing", "pkg/engine/ops.go", "outgoingRels := e.DB.GetAllRelations(graphID, \"out\")", "outgoingRels := e.DB.GetAllRelations(graphID, \"in\")", "SIB-4", "VDelete:cascade-directions"},
+		mutant{"cascade-not-registered", "pkg/engine/ops.go", "\te.wg.Add(1)\n\tgo func(deadNodeID string) {\n\t\tdefer e.wg.Done()\n", "\tgo func(deadNodeID string) {\n", "SIB-4", "cascade-registered-before-go"},
+	)
+}
